@@ -82,6 +82,10 @@ package syncx
 //@   opaque Add, Err
 //@   requires m != nil
 //@   loop 1 iteration-ensures [each-closed-once] calls(Close) == 1
+// Close returns only after the whole map has been visited - a resource whose Close fails does not stop the
+// others from being closed
+//@   ensures [every-resource-visited] forallk(k, string, old(has(m.resources, k)) ==> visited(old(m.resources), k))
+//@   ensures [errors-collected] result == ret(Err)
 //@   ensures [emptied] m.resources == nil
 
 // ---- SingleFlight (sequential part): the leader runs fn once, publishes its result and removes the entry (also
